@@ -147,12 +147,13 @@ def build(kind, subs):
     if kind == "tuple...":
         (a,) = subs
         good = [(), tuple(a.good[:2]), list(a.good[:1])]
-        bad = [b for b in ([*a.good[:1], *a.bad[:1]], "ab", 5, None) if not (is_seq(b) and all(conf(a, x) for x in b))]
+        bad = [b for b in ([*a.good[:1], *a.bad[:1]], "ab", b"ab", bytearray(b"ab"), b"", 5, None)
+               if not (is_seq(b) and all(conf(a, x) for x in b))]
         return T(f"tuple[{a.name}, ...]", tuple[a.ann, ...], good, bad, lambda v: tuple(a.canon(x) for x in v))
     if kind == "tuple2":
         a, b = subs
         good = [(a.good[0], b.good[0]), [a.good[-1], b.good[-1]]]
-        bad = [(a.good[0],), (a.good[0], b.good[0], b.good[0]), "ab", None]
+        bad = [(a.good[0],), (a.good[0], b.good[0], b.good[0]), "ab", b"ab", bytearray(b"ab"), None]
         if a.bad:
             bad.append((a.bad[0], b.good[0]))
         if b.bad:
